@@ -5,6 +5,9 @@ TARGETS = [
     ("fakesnow/cursor.py", "FakeSnowflakeCursor.fetchone", "fakesnow.cursor.FakeSnowflakeCursor.fetchone"),
     ("fakesnow/cursor.py", "FakeSnowflakeCursor.fetchall", "fakesnow.cursor.FakeSnowflakeCursor.fetchall"),
     ("fakesnow/cli.py", "split", "fakesnow.cli.split"),
+    ("fakesnow/types.py", "describe_as_rowtype.<locals>.as_column_info", "fakesnow.types.describe_as_rowtype.<locals>.as_column_info"),
+    ("fakesnow/types.py", "describe_as_rowtype", "fakesnow.types.describe_as_rowtype"),
+    ("fakesnow/server.py", "to_conn", "fakesnow.server.to_conn"),
 ]
 
 T = {cn.split(".")[-1] if cn.split(".")[-1] not in ("split",) else cn.split(".")[-1]: (rel, q, cn) for rel, q, cn in TARGETS}
